@@ -15,16 +15,25 @@ A configuration:
     subject : ('subject',) | ('behavior', v0) | ('async',) | ('replay', buffer_size, window)
     via     : how the connectable is made: 'publish' | 'publish_value' | 'replay' | 'multicast'
     mode    : ('plain',) | ('refcount',) | ('share',) | ('auto', n) | ('mapper', which)
+              ('auto', None) = auto_connect() with its DEFAULT argument (the model reads it as 1)
     cold    : notifications the source emits synchronously inside every subscribe() (a cold
               prefix; [] = purely hot)
+    sched   : bool (default False): every subscribe() / connect() of the history is given a
+              subscribe-time scheduler (the replay flavours: their VirtualTimeScheduler, otherwise a
+              second VirtualTimeScheduler drained with it); the source records which scheduler IT
+              is subscribed with ("given" / "none" / "other") next to its ssub record, the subject
+              factory which one it is called with.  The model has no notion of it (the log must be
+              the same with and without); the statement of C24 does not mention schedulers, so the
+              forwarding is MEASURED (chk.cov["scheduler_forwarding"]), never a violation.
 Driver rules (mirrored by Subjects/Connectable.v): every operation, nested ones included, runs
 inside try/except; ('sub', o) with an id used before is skipped; ('unsub', o) without handle is
 skipped; ('disc', j) without j-th handle is skipped; ('connect',) is skipped when the connectable
 is not reachable (share, mapper); replay flavours run on a VirtualTimeScheduler drained after
 every top-level operation.
 
-Log records: call / ret(raised) / got(o, n) / ssub(cid) / sunsub(cid) in one total order; cid numbers
-the source's subscriptions in the order they were made."""
+Log records: call / ret(raised) / got(o, n) / cbend(o) / ssub(cid) / sunsub(cid) in one total order; cid
+numbers the source's subscriptions in the order they were made; cbend marks the return of subscriber
+o's callback (after the operations it issued from inside), used by the trace oracle `TraceExpect` only."""
 from __future__ import annotations
 
 import itertools
@@ -53,7 +62,7 @@ class Source:
             cid = len(self.recs)
             rec = [observer, True]
             self.recs.append(rec)
-            drv.rec.append({"t": "ssub", "cid": cid})
+            drv.rec.append({"t": "ssub", "cid": cid, "sched": drv.sched_tag(scheduler)})
             for n in cold:
                 deliver(observer, n)
 
@@ -92,6 +101,7 @@ class LogObserver:
         if k < len(sc):
             for op in sc[k]:
                 d.do(op, in_cb=(self.o, k))
+        d.rec.append({"t": "cbend", "o": self.o})
 
     def on_next(self, v):
         self._cb(("N", POOL.id(v)))
@@ -122,11 +132,18 @@ class Driver:
         self.ncalls = 0
         sk = cfg["subject"]
         self.scheduler = VirtualTimeScheduler() if sk[0] == "replay" else None
+        # the subscribe-time scheduler handed to every subscribe() / connect() (cfg["sched"])
+        self.sub_sched = None
+        if cfg.get("sched"):
+            self.sub_sched = self.scheduler if self.scheduler is not None else VirtualTimeScheduler()
+        self.factory_args = []
         self.source = Source(self, cfg.get("cold", []))
         src = self.source.observable
         mode, via = cfg["mode"], cfg["via"]
 
-        def fresh_subject(_=None):
+        def fresh_subject(arg="build"):
+            if arg != "build":
+                self.factory_args.append(self.sched_tag(arg))
             if sk[0] == "subject":
                 return Subject()
             if sk[0] == "behavior":
@@ -159,7 +176,7 @@ class Driver:
             assert sk[0] == "replay"
             mk = ops.replay(sk[1], sk[2], scheduler=self.scheduler)
         else:
-            mk = ops.multicast(fresh_subject())
+            mk = ops.multicast(fresh_subject("build"))
         if mode[0] == "share":
             assert via == "publish"
             self.obs = src.pipe(ops.share())
@@ -171,9 +188,15 @@ class Driver:
             self.obs = self.connectable.pipe(ops.ref_count())
         elif mode[0] == "auto":
             # auto_connect(0) connects here, before any operation of the history
-            self.obs = self.connectable.auto_connect(mode[1])
+            self.obs = (self.connectable.auto_connect() if mode[1] is None
+                        else self.connectable.auto_connect(mode[1]))
         else:
             raise AssertionError(mode)
+
+    def sched_tag(self, scheduler):
+        if scheduler is None:
+            return "none"
+        return "given" if scheduler is self.sub_sched else "other"
 
     def do(self, op, in_cb=None):
         cid = self.ncalls
@@ -188,7 +211,10 @@ class Driver:
                 o = op[1]
                 if o not in self.calls:
                     self.calls[o] = 0
-                    h = self.obs.subscribe(LogObserver(self, o))
+                    if self.sub_sched is not None:
+                        h = self.obs.subscribe(LogObserver(self, o), scheduler=self.sub_sched)
+                    else:
+                        h = self.obs.subscribe(LogObserver(self, o))
                     self.handles[o] = h
             elif k == "unsub":
                 h = self.handles.get(op[1])
@@ -196,7 +222,8 @@ class Driver:
                     h.dispose()
             elif k == "connect":
                 if self.connectable is not None:
-                    self.chandles.append(self.connectable.connect())
+                    self.chandles.append(self.connectable.connect(self.sub_sched) if self.sub_sched is not None
+                                         else self.connectable.connect())
             elif k == "disc":
                 if op[1] < len(self.chandles):
                     self.chandles[op[1]].dispose()
@@ -220,6 +247,8 @@ class Driver:
         from reactivex.scheduler import VirtualTimeScheduler
         if self.scheduler is not None:
             VirtualTimeScheduler.start(self.scheduler)
+        if self.sub_sched is not None and self.sub_sched is not self.scheduler:
+            VirtualTimeScheduler.start(self.sub_sched)
 
 
 def run_case(cfg, hist):
@@ -233,6 +262,8 @@ def run_case(cfg, hist):
     for op in top:
         d.do(op)
         d.drain()
+    if d.factory_args:
+        d.rec.append({"t": "meta", "factory_args": d.factory_args})
     return d.rec
 
 
@@ -286,7 +317,7 @@ def g_config(cfg):
     elif mode[0] in ("refcount", "share"):
         md = "MRefCount"
     elif mode[0] == "auto":
-        md = f"(MAuto {mode[1]}%nat)"
+        md = f"(MAuto {1 if mode[1] is None else mode[1]}%nat)"
     else:
         raise AssertionError(mode)
     reach = "false" if mode[0] == "share" else "true"
@@ -377,13 +408,13 @@ def gen_config(rng, mapper=False):
         elif r < 0.7:
             mode = ("refcount",)
         else:
-            mode = ("auto", rng.choice([0, 1, 1, 2, 2, 3]))
+            mode = ("auto", rng.choice([0, 1, 1, 2, 2, 3, None]))
     cold = []
     if rng.random() < 0.25:
         cold = [rng.choice(NOTES[:4]) for _ in range(rng.choice([1, 1, 2]))]
         if rng.random() < 0.5:
             cold.append(rng.choice(NOTES[4:]))
-    return {"subject": sk, "via": via, "mode": mode, "cold": cold}
+    return {"subject": sk, "via": via, "mode": mode, "cold": cold, "sched": rng.random() < 0.4}
 
 
 def gen_op(rng, nobs, cfg, nested=False, manual=True):
@@ -465,7 +496,7 @@ class Expect:
         self.cfg = cfg
         self.kind = cfg["subject"][0]
         self.mode = cfg["mode"][0]
-        self.n_auto = cfg["mode"][1] if self.mode == "auto" else None
+        self.n_auto = (1 if cfg["mode"][1] is None else cfg["mode"][1]) if self.mode == "auto" else None
         self.cold = cfg.get("cold", [])
         self.connected = False          # a connection exists (connect() .. its disposal)
         self.conn_id = -1               # number of the current connection
@@ -479,6 +510,9 @@ class Expect:
         self.subs = []                  # current subscribers of the subject, in order
         self.used = set()
         self.count = 0                  # ref_count: current subscribers of the ref-counted observable
+        self.rc_conn = None             # ref_count: the connection its last 0 -> 1 connect() returned
+        self.rc_claim = False
+        self.open_question = False      # the statement no longer determines the outcome (see `left`)
         self.rc_members = set()
         self.arrivals = 0
         self.handles = []               # connection number each connect() call returned
@@ -530,6 +564,8 @@ class Expect:
         self.connected, self.src_open = True, True
         self.conn_id = self.next_cid
         self.next_cid += 1
+        if self.rc_claim:                       # made by ref_count's 0 -> 1 connect()
+            self.rc_conn, self.rc_claim = self.conn_id, False
         self.src.append(("ssub", self.conn_id))
         for n in self.cold:
             self.from_source(n)
@@ -556,6 +592,12 @@ class Expect:
             self.rc_members.discard(o)
             self.count -= 1
             if self.count == 0:
+                if self.connected and self.rc_conn != self.conn_id:
+                    # manual connect() / dispose next to ref_count replaced the connection ref_count made:
+                    # the count is back to 0 but the live connection is the caller's own.  The statement
+                    # does not say whose it is to end (the code leaves it alone): accept either, stop here
+                    self.open_question = True
+                    return
                 self.disconnect()
 
     # -- the history ----------------------------------------------------
@@ -579,7 +621,10 @@ class Expect:
             if self.status == "live":
                 self.subs.append(o)
             if first:
+                self.rc_claim = self.mode in ("refcount", "share")
                 self.connect()
+                if self.rc_claim:               # connect() found a connection in place: ref_count holds that one
+                    self.rc_conn, self.rc_claim = self.conn_id, False
             if o not in self.subs:
                 self.left(o)
         elif k == "unsub":
@@ -600,6 +645,395 @@ class Expect:
         elif k == "adv":
             if self.kind == "replay" and op[1] >= 0:
                 self.clock += op[1]
+
+
+
+class Abstain(Exception):
+    pass
+
+
+class TraceExpect:
+    """The source-subscription clauses of C24 on ARBITRARY call trees, judged on the implementation's
+    own record stream (calls and returns -- nested ones included --, callbacks and their returns,
+    source subscribe / unsubscribe events in one total order).  The stream says WHERE the subscribers
+    re-entered the operators (which callback fired, which operations it issued); what the source
+    must see is computed from the statement alone:
+
+      * the source is subscribed (`ssub`) only when no connection exists, and only inside a call that
+        connects: connect() (reachable connectable), the subscribe() that takes the ref_count / share
+        subscriber count from 0 to 1, the subscribe() that is the n-th arrival of auto_connect(n)
+        (auto_connect(0): when the observable is built) -- `unlicensed-source-subscription`;
+      * every such call ends with a connection in place: if none exists when it returns and none was
+        made and disposed again by a call nested in it, the obligation passes to the enclosing call;
+        when the outermost operation returns without one the edge was missed (`missing-connect`);
+      * the source is unsubscribed (`sunsub`) exactly when (a) the handle of the CURRENT connection is
+        disposed by ('disc', j), (b) the ref_count / share count returns to 0 -- a subscriber leaves by
+        disposing its handle, or at the end of the callback that gave it the terminal notification,
+        or, if that happened inside its own subscribe(), when that call ends --, and then it is the
+        very next event; (c) the source itself ended (cold prefix with a terminal, err / done through
+        the live connection): before the delivering call returns.  Anything else is
+        `unlicensed-source-unsubscription`; an expected one that does not come is `missing-disconnect`
+        / `subscription-outlives-source`.
+
+    Where the statement does not determine the outcome the oracle ABSTAINS (stops judging the case):
+    an operation raised; a handle returned by a connect() nested in the set-up of the connection
+    (the code returns the previous handle or None there) is disposed or is the one ref_count holds.
+    The count is the number of subscribe() calls entered minus the subscribers that left; it is not
+    told when within subscribe() the code increments it, so an ssub is accepted in ANY open connecting
+    call, not only the innermost."""
+
+    def __init__(self, cfg):
+        self.mode = cfg["mode"][0]
+        self.n_auto = (1 if cfg["mode"][1] is None else cfg["mode"][1]) if self.mode == "auto" else None
+        self.reach = self.mode not in ("share", "mapper")
+        self.cold_term = any(n[0] != "N" for n in cfg.get("cold", []))
+        self.connected, self.src_open, self.conn_id, self.next_cid = False, False, -1, 0
+        self.establishing = 0
+        self.used, self.returned, self.members = set(), set(), set()
+        self.count = self.arrivals = 0
+        self.pending_leave = set()
+        self.rc_handle = None
+        self.chandles = []
+        self.frames = []
+        self.cbs = []
+        self.expect_now = None
+        self.stats = {"nested_calls": 0, "nested_in_subscribe": 0, "nested_in_source_emission": 0,
+                      "nested_in_connect": 0, "nested_at_drain": 0, "ssub_in_nested_call": 0,
+                      "sunsub_in_nested_call": 0, "deferred_leave": 0}
+        self.i = -1
+
+    # -- helpers -------------------------------------------------------
+    class Bad(Exception):
+        def __init__(self, what, **d):
+            super().__init__(what)
+            self.what, self.d = what, d
+
+    def frame(self, op, trigger=False):
+        return {"op": op, "trigger": trigger, "rc": False, "manual": False, "done": False, "made": None,
+                "must_close": [], "disc_inside": False, "sub_o": None, "settled": False}
+
+    def disconnect(self):
+        self.connected = False
+        for f in self.frames:
+            f["disc_inside"] = True
+        if self.src_open:
+            self.expect_now = ("sunsub", self.conn_id)
+
+    def leave(self, o):
+        if self.mode in ("refcount", "share") and o in self.members:
+            self.members.discard(o)
+            self.count -= 1
+            if self.count == 0:
+                if self.rc_handle == "unknown":
+                    raise Abstain("ref_count disposes a handle that a connect() nested in a connection set-up returned")
+                if self.rc_handle is not None and self.rc_handle == self.conn_id and self.connected:
+                    self.disconnect()
+
+    def settle(self, f):
+        """the connecting part of a call is over: edge obligation, and which handle it holds"""
+        if f["settled"] or not f["trigger"]:
+            return
+        f["settled"] = True
+        handle = "unknown"
+        if f["done"]:
+            handle = f["made"]
+        elif self.connected:
+            if self.establishing == 0:
+                handle = self.conn_id
+        elif not f["disc_inside"]:
+            outer = [g for g in self.frames if g is not f]
+            if not outer:
+                raise self.Bad("missing-connect", during=f["op"], count=self.count, arrivals=self.arrivals)
+            # a nested call: the statement does not say at which point of the enclosing operation the edge
+            # is taken -- the obligation passes to the enclosing call (never happens with the code as it is)
+            outer[-1]["trigger"] = True
+            self.stats["obligation_passed_outwards"] = self.stats.get("obligation_passed_outwards", 0) + 1
+        if f["rc"]:
+            self.rc_handle = handle
+        if f["manual"]:
+            self.chandles.append(handle)
+
+    def close(self, f):
+        o = f["sub_o"]
+        self.settle(f)
+        if o is not None:
+            if o in self.pending_leave:
+                self.pending_leave.discard(o)
+                self.leave(o)
+                if self.expect_now is not None:
+                    raise self.Bad("missing-disconnect", during=f["op"], expected=self.expect_now)
+            self.returned.add(o)
+        if f["done"]:
+            self.establishing -= 1
+        for c in f["must_close"]:
+            if self.src_open and self.conn_id == c:
+                raise self.Bad("subscription-outlives-source", during=f["op"], cid=c)
+
+    # -- the stream ------------------------------------------------------
+    def run(self, rec):
+        """-> (None | (what, detail), abstained reason | None)"""
+        try:
+            self.frames.append(self.frame(("build",), trigger=self.mode == "auto" and self.n_auto == 0))
+            build = True
+            for self.i, r in enumerate(rec):
+                if build and r["t"] == "call":
+                    self.close(self.frames.pop())
+                    build = False
+                self.feed(r)
+            if build:
+                self.close(self.frames.pop())
+            if self.expect_now is not None:
+                raise self.Bad("missing-disconnect", expected=self.expect_now)
+        except self.Bad as b:
+            return (b.what, dict(b.d, record_index=self.i)), None
+        except Abstain as a:
+            return None, str(a)
+        return None, None
+
+    def feed(self, r):
+        t = r["t"]
+        if self.expect_now is not None:
+            if t == "sunsub" and ("sunsub", r["cid"]) == self.expect_now:
+                self.expect_now = None
+                self.src_open = False
+                if len(self.frames) > 1:
+                    self.stats["sunsub_in_nested_call"] += 1
+                return
+            raise self.Bad("missing-disconnect", expected=self.expect_now, got=(t, r.get("cid")))
+        if t == "call":
+            self.call(r)
+        elif t == "ret":
+            f = self.frames.pop()
+            if r["raised"] is not None:
+                raise Abstain("an operation raised")
+            self.close(f)
+        elif t == "got":
+            self.cbs.append((r["o"], r["n"][0] != "N"))
+        elif t == "cbend":
+            o, terminal = self.cbs.pop()
+            if terminal and o in self.members:
+                if o in self.returned:
+                    self.leave(o)
+                else:
+                    self.pending_leave.add(o)
+                    self.stats["deferred_leave"] += 1
+        elif t == "ssub":
+            self.ssub(r["cid"])
+        elif t == "sunsub":
+            self.sunsub(r["cid"])
+
+    def call(self, r):
+        op = r["op"]
+        k = op[0]
+        f = self.frame(op)
+        if self.cbs:
+            self.stats["nested_calls"] += 1
+            outer = self.frames[0]["op"][0] if self.frames else None
+            key = {"sub": "nested_in_subscribe", "connect": "nested_in_connect", "next": "nested_in_source_emission",
+                   "err": "nested_in_source_emission", "done": "nested_in_source_emission",
+                   None: "nested_at_drain"}.get(outer)
+            if key:
+                self.stats[key] += 1
+        if k == "sub":
+            o = op[1]
+            if o not in self.used:
+                self.used.add(o)
+                f["sub_o"] = o
+                if self.mode in ("refcount", "share"):
+                    self.count += 1
+                    self.members.add(o)
+                    f["trigger"] = f["rc"] = self.count == 1
+                elif self.mode == "auto":
+                    self.arrivals += 1
+                    f["trigger"] = self.arrivals == self.n_auto
+        elif k == "unsub":
+            if op[1] in self.returned:
+                self.frames.append(f)
+                self.leave(op[1])
+                return
+        elif k == "connect":
+            if self.reach:
+                f["trigger"] = f["manual"] = True
+        elif k == "disc":
+            if op[1] < len(self.chandles):
+                h = self.chandles[op[1]]
+                if h == "unknown":
+                    raise Abstain("dispose of a handle that a connect() nested in a connection set-up returned")
+                if h == self.conn_id and self.connected:
+                    self.frames.append(f)
+                    self.disconnect()
+                    return
+        elif k in ("err", "done"):
+            c = self.conn_id
+            if self.src_open and not any(c in g["must_close"] for g in self.frames):
+                # (a terminal already in flight: the source's observer is stopped, this one is dropped)
+                maker = [g for g in self.frames if g["made"] == c]
+                # inside the cold prefix of connection c the subscription is released when the
+                # source's subscribe() returns, i.e. before the call that made c returns
+                (maker[0] if maker else f)["must_close"].append(c)
+        self.frames.append(f)
+
+    def ssub(self, cid):
+        if self.connected:
+            raise self.Bad("source-subscribed-while-connected", cid=cid, connection=self.conn_id)
+        fs = [f for f in self.frames if f["trigger"] and not f["done"] and not f["settled"]]
+        if not fs:
+            raise self.Bad("unlicensed-source-subscription", cid=cid,
+                           open_calls=[f["op"] for f in self.frames], count=self.count, arrivals=self.arrivals)
+        f = fs[-1]
+        f["done"], f["made"] = True, cid
+        self.connected = self.src_open = True
+        self.conn_id = cid
+        self.establishing += 1
+        if self.cold_term:
+            f["must_close"].append(cid)
+        if f is not self.frames[0]:
+            self.stats["ssub_in_nested_call"] += 1
+
+    def sunsub(self, cid):
+        if self.src_open and cid == self.conn_id and any(cid in f["must_close"] for f in self.frames):
+            self.src_open = False               # the source ended: its subscription is released
+            return
+        f = self.frames[-1] if self.frames else None
+        if f is not None and f["sub_o"] in self.pending_leave:
+            self.settle(f)
+            self.pending_leave.discard(f["sub_o"])
+            self.leave(f["sub_o"])
+            if self.expect_now == ("sunsub", cid):
+                self.expect_now = None
+                self.src_open = False
+                return
+        raise self.Bad("unlicensed-source-unsubscription", cid=cid, connected=self.connected,
+                       connection=self.conn_id, count=self.count,
+                       open_calls=[g["op"] for g in self.frames])
+
+
+class MapperTraceExpect:
+    """subject_factory + mapper form on ANY call tree, same technique as TraceExpect: every
+    subscribe() of a new subscriber is its own multicast invocation, so it subscribes the source
+    exactly once, inside that call (`mapper-missing-source-subscription` /
+    `unlicensed-source-subscription`), whatever the mapper does with the connectable; that
+    subscription is released exactly when its subscriber leaves (disposes its handle; at the end of
+    the callback that gave it the terminal notification, or at the end of its subscribe() if that
+    happened inside it) -- the very next event -- or when the source ended (before the delivering
+    call returns)."""
+    Bad = TraceExpect.Bad
+
+    def __init__(self, cfg):
+        self.cold_term = any(n[0] != "N" for n in cfg.get("cold", []))
+        self.used, self.returned, self.left, self.pending_leave = set(), set(), set(), set()
+        self.cid_of, self.open = {}, set()
+        self.frames, self.cbs = [], []
+        self.expect_now = None
+        self.stats = {"nested_calls": 0, "ssub_in_nested_call": 0, "sunsub_in_nested_call": 0, "deferred_leave": 0}
+        self.i = -1
+
+    def leave(self, o):
+        if o in self.left:
+            return
+        self.left.add(o)
+        c = self.cid_of.get(o)
+        if c in self.open:
+            self.expect_now = ("sunsub", c)
+
+    def close(self, f):
+        o = f["sub_o"]
+        if o is not None:
+            if not f["done"]:
+                raise self.Bad("mapper-missing-source-subscription", during=f["op"])
+            if o in self.pending_leave:
+                self.pending_leave.discard(o)
+                self.leave(o)
+                if self.expect_now is not None:
+                    raise self.Bad("missing-disconnect", during=f["op"], expected=self.expect_now)
+            self.returned.add(o)
+        for c in f["must_close"]:
+            if c in self.open:
+                raise self.Bad("subscription-outlives-source", during=f["op"], cid=c)
+
+    def run(self, rec):
+        try:
+            for self.i, r in enumerate(rec):
+                self.feed(r)
+            if self.expect_now is not None:
+                raise self.Bad("missing-disconnect", expected=self.expect_now)
+        except self.Bad as b:
+            return (b.what, dict(b.d, record_index=self.i)), None
+        except Abstain as a:
+            return None, str(a)
+        return None, None
+
+    def feed(self, r):
+        t = r["t"]
+        if self.expect_now is not None:
+            if t == "sunsub" and ("sunsub", r["cid"]) == self.expect_now:
+                self.expect_now = None
+                self.open.discard(r["cid"])
+                if len(self.frames) > 1:
+                    self.stats["sunsub_in_nested_call"] += 1
+                return
+            raise self.Bad("missing-disconnect", expected=self.expect_now, got=(t, r.get("cid")))
+        if t == "call":
+            op = r["op"]
+            f = {"op": op, "sub_o": None, "done": False, "made": None, "must_close": []}
+            if self.cbs:
+                self.stats["nested_calls"] += 1
+            if op[0] == "sub" and op[1] not in self.used:
+                self.used.add(op[1])
+                f["sub_o"] = op[1]
+            elif op[0] in ("err", "done"):
+                for c in sorted(self.open):
+                    if not any(c in g["must_close"] for g in self.frames):
+                        maker = [g for g in self.frames if g["made"] == c]
+                        (maker[0] if maker else f)["must_close"].append(c)
+            self.frames.append(f)
+            if op[0] == "unsub" and op[1] in self.returned:
+                self.leave(op[1])
+        elif t == "ret":
+            f = self.frames.pop()
+            if r["raised"] is not None:
+                raise Abstain("an operation raised")
+            self.close(f)
+        elif t == "got":
+            self.cbs.append((r["o"], r["n"][0] != "N"))
+        elif t == "cbend":
+            o, terminal = self.cbs.pop()
+            if terminal and o not in self.left:
+                if o in self.returned:
+                    self.leave(o)
+                else:
+                    self.pending_leave.add(o)
+                    self.stats["deferred_leave"] += 1
+        elif t == "ssub":
+            fs = [f for f in self.frames if f["sub_o"] is not None and not f["done"]]
+            if not fs:
+                raise self.Bad("unlicensed-source-subscription", cid=r["cid"], open_calls=[f["op"] for f in self.frames])
+            f = fs[-1]
+            f["done"], f["made"] = True, r["cid"]
+            self.cid_of[f["sub_o"]] = r["cid"]
+            self.open.add(r["cid"])
+            if self.cold_term:
+                f["must_close"].append(r["cid"])
+            if f is not self.frames[0]:
+                self.stats["ssub_in_nested_call"] += 1
+        elif t == "sunsub":
+            c = r["cid"]
+            if c in self.open and any(c in f["must_close"] for f in self.frames):
+                self.open.discard(c)
+                return
+            f = self.frames[-1] if self.frames else None
+            if f is not None and f["sub_o"] in self.pending_leave and f["done"]:
+                self.pending_leave.discard(f["sub_o"])
+                self.leave(f["sub_o"])
+                if self.expect_now == ("sunsub", c):
+                    self.expect_now = None
+                    self.open.discard(c)
+                    return
+            raise self.Bad("unlicensed-source-unsubscription", cid=c, open=sorted(self.open),
+                           open_calls=[g["op"] for g in self.frames])
+
+
+TRACE_STATS = {}
 
 
 def oracle(cfg, hist, rec):
@@ -656,7 +1090,7 @@ def oracle(cfg, hist, rec):
                 allowed = ("sub",)
             elif mode == "plain":
                 allowed = ("connect",)
-            elif mode == "auto" and cfg["mode"][1] == 0 and inner is None:
+            elif mode == "auto" and cfg["mode"][1] == 0 and inner is None:   # (auto_connect() default: None != 0)
                 continue
             else:
                 allowed = ("sub", "connect") if manual else ("sub",)
@@ -673,10 +1107,28 @@ def oracle(cfg, hist, rec):
     for r in rec:
         if r["t"] == "ret" and r["raised"] is not None and flat:
             fail("call-raised", raised=r["raised"])
+    # 3b. the source-subscription clauses on ANY tree, judged on the record stream (TraceExpect)
+    if True:
+        te = MapperTraceExpect(cfg) if mode == "mapper" else TraceExpect(cfg)
+        verdict, abstained = te.run(rec)
+        st = TRACE_STATS.setdefault(("mapper-" if mode == "mapper" else "") + ("flat" if flat else "tree"), {})
+        for k, v in dict(te.stats, judged=int(abstained is None), abstained=int(abstained is not None)).items():
+            st[k] = st.get(k, 0) + v
+        if abstained is not None:
+            st.setdefault("abstained_why", {})
+            st["abstained_why"][abstained] = st["abstained_why"].get(abstained, 0) + 1
+        if verdict is not None:
+            cat = {"auto": "auto-connect-instant", "refcount": "ref-count-edges", "share": "ref-count-edges",
+                   "mapper": "mapper-source-events"}.get(mode, "source-events")
+            fail(f"trace:{cat}:{verdict[0]}", **verdict[1])
     if not flat:
         return bad
     # 4. histories of top-level calls: the exact expectation
     if mode == "mapper":
+        if cfg["mode"][1] == "merge2" and cfg.get("cold"):
+            # merge subscribes its inner sources through the trampoline, after connect(): what of the cold
+            # prefix the subscriber sees is the mapper's business; source events judged by MapperTraceExpect
+            return bad
         return bad + oracle_mapper(cfg, top, rec, fail)
     ex = Expect(cfg)
     ops = split_ops(rec)
@@ -685,6 +1137,10 @@ def oracle(cfg, hist, rec):
         fail("source-events-at-build", got=pre, expected=ex.src)
     for i, (op, rs) in enumerate(ops[1:]):
         ex.op(op)
+        if ex.open_question:
+            st = TRACE_STATS.setdefault("flat", {})
+            st["flat_expectation_stopped_at_an_open_question"] = st.get("flat_expectation_stopped_at_an_open_question", 0) + 1
+            break
         got = [(r["t"], r["cid"]) for r in rs if r["t"] in ("ssub", "sunsub")]
         if got != ex.src:
             what = "source-events"
@@ -776,12 +1232,12 @@ def mapper_feed(kind, dup, expect, last, o, n):
 
 def cfg_json(cfg):
     return {"subject": list(cfg["subject"]), "via": cfg["via"], "mode": list(cfg["mode"]),
-            "cold": [list(n) for n in cfg.get("cold", [])]}
+            "cold": [list(n) for n in cfg.get("cold", [])], "sched": bool(cfg.get("sched"))}
 
 
 def cfg_from_json(d):
     return {"subject": tuple(d["subject"]), "via": d["via"], "mode": tuple(d["mode"]),
-            "cold": [tuple(n) for n in d.get("cold", [])]}
+            "cold": [tuple(n) for n in d.get("cold", [])], "sched": bool(d.get("sched"))}
 
 
 def small_configs(tier):
@@ -792,7 +1248,8 @@ def small_configs(tier):
     out += [dict(subject=R, via="replay", mode=m, cold=[]) for m in [("plain",), ("refcount",), ("auto", 1)]]
     out += [dict(subject=("async",), via="multicast", mode=("refcount",), cold=[]),
             dict(subject=S, via="multicast", mode=("refcount",), cold=[("N", 2), ("C",)]),
-            dict(subject=S, via="publish", mode=("plain",), cold=[("N", 0)])]
+            dict(subject=S, via="publish", mode=("plain",), cold=[("N", 0)]),
+            dict(subject=S, via="publish", mode=("auto", None), cold=[])]      # auto_connect() default argument
     if tier != "quick":
         out += [dict(subject=("replay", 2, 1), via="replay", mode=("refcount",), cold=[("N", 2)]),
                 dict(subject=B, via="multicast", mode=("auto", 1), cold=[("N", 0), ("E", 11)]),
@@ -817,13 +1274,47 @@ def gen_cases(tier, rng):
         for h in subj.enum_flat(alpha, ll):
             cases.append((cfg, h))
     scope["exhaustive_flat"] = len(cases)
+    # the same configurations with a subscribe-time scheduler given to every subscribe() / connect()
+    for cfg in small_configs(tier):
+        m = cfg["mode"][0]
+        alpha = ([("sub", 0), ("sub", 1), ("unsub", 0), ("connect",), ("disc", 0), ("next", a), ("done",)]
+                 if m == "plain" else [("sub", 0), ("sub", 1), ("sub", 2), ("unsub", 0), ("unsub", 1), ("next", a),
+                                       ("done",)])
+        for h in subj.enum_flat(alpha, 2 if tier == "quick" else 3):
+            cases.append((dict(cfg, sched=True), h))
+    scope["flat_with_scheduler"] = len(cases) - scope["exhaustive_flat"]
+    n_before = len(cases)
     # re-entrant: observer 0 (or 1) reacts inside its first callback
     reactions = [("unsub", 0), ("unsub", 1), ("sub", 2), ("connect",), ("disc", 0), ("next", b), ("done",)]
     tail = [("next", a), ("done",), ("unsub", 1), ("sub", 3), ("connect",), ("disc", 0)]
     for cfg in small_configs("quick")[:13]:
         for h in subj.enum_reentrant([("sub", 0), ("sub", 1)], tail, reactions, 2 if tier == "quick" else 3):
             cases.append((cfg, h))
-    scope["exhaustive_reentrant"] = len(cases) - scope["exhaustive_flat"]
+    scope["exhaustive_reentrant"] = len(cases) - n_before
+    # re-entrant, targeted at the edges: the reaction comes from the GREETING callback (publish_value: inside
+    # subscribe(), before ref_count / auto_connect connect) or from a COLD-PREFIX callback (inside connect()),
+    # of the first (count 0 -> 1) or the second subscriber; a second reaction from a source-emission callback
+    n_before = len(cases)
+    S, B = ("subject",), ("behavior", 0)
+    tcfgs = [dict(subject=B, via="publish_value", mode=m, cold=[]) for m in [("plain",), ("refcount",), ("auto", 1)]]
+    tcfgs += [dict(subject=S, via="publish", mode=m, cold=[("N", 0)]) for m in [("plain",), ("refcount",), ("auto", 2)]]
+    tcfgs += [dict(subject=S, via="publish", mode=("refcount",), cold=[("N", 0), ("C",)])]
+    if tier != "quick":
+        tcfgs += [dict(subject=B, via="publish_value", mode=("auto", 2), cold=[]),
+                  dict(subject=("replay", 1, None), via="replay", mode=("refcount",), cold=[("N", 0)])]
+    r1s = [("sub", 2), ("unsub", 1), ("connect",), ("disc", 0), ("done",), ("next", b)]
+    r2s = [None, "unsub-self"] + ([("sub", 3), ("connect",)] if tier != "quick" else [])
+    tails = [[], [("next", a)], [("done",)], [("unsub", 0)]] + ([[("next", a), ("unsub", 1)], [("connect",)]]
+                                                                 if tier != "quick" else [])
+    for cfg in tcfgs:
+        prefix = [("sub", 0), ("sub", 1)] + ([("connect",)] if cfg["mode"][0] == "plain" else [])
+        for tail in tails:
+            for who in (0, 1):
+                for r1 in r1s:
+                    for r2 in r2s:
+                        second = [] if r2 is None else [("unsub", who)] if r2 == "unsub-self" else [r2]
+                        cases.append((cfg, (prefix + tail, {who: [[r1], second]})))
+    scope["targeted_reentrant"] = len(cases) - n_before
     nrand = 1500 if tier == "quick" else 25000
     for _ in range(nrand):
         cfg = gen_config(rng)
@@ -832,9 +1323,10 @@ def gen_cases(tier, rng):
     nmap = 400 if tier == "quick" else 5000
     for _ in range(nmap):
         cfg = gen_config(rng, mapper=True)
-        if cfg["mode"][1] == "merge2":
+        tree = rng.random() < 0.3       # re-entrant: source events by MapperTraceExpect only
+        if cfg["mode"][1] == "merge2" and not (tree or rng.random() < 0.2):
             cfg["cold"] = []          # merge subscribes its inner sources through the trampoline (after connect)
-        cases.append((cfg, gen_history(rng, cfg, flat=True)))
+        cases.append((cfg, gen_history(rng, cfg, flat=not tree)))
     scope["random_mapper_form"] = nmap
     scope["flat_len"] = L
     return cases, scope
@@ -853,7 +1345,11 @@ def run_check(chk):
     cases, scope = gen_cases(tier, chk.rng)
     mgal, midx, nsig = [], [], {}
     gal, idx, H, nt = [], [], {"mode": {}, "subject": {}, "reentrant": 0, "cold": 0, "falsy_values": 0,
-                               "reconnect": 0, "late_subscriber_after_end": 0}, set()
+                               "reconnect": 0, "late_subscriber_after_end": 0, "with_subscribe_time_scheduler": 0,
+                               "auto_connect_default_argument": 0, "mapper_form_reentrant": 0,
+                               "mapper_merge2_cold": 0}, set()
+    TRACE_STATS.clear()
+    fwd = {}
     for ci, (cfg, h) in enumerate(cases):
         rec = run_case(cfg, h)
         chk.cov["evaluations"] += 1
@@ -861,6 +1357,21 @@ def run_check(chk):
         H["subject"][cfg["subject"][0]] = H["subject"].get(cfg["subject"][0], 0) + 1
         H["reentrant"] += 1 if h[1] else 0
         H["cold"] += 1 if cfg.get("cold") else 0
+        H["auto_connect_default_argument"] += 1 if cfg["mode"] == ("auto", None) else 0
+        H["mapper_form_reentrant"] += 1 if cfg["mode"][0] == "mapper" and h[1] else 0
+        H["mapper_merge2_cold"] += 1 if cfg["mode"] == ("mapper", "merge2") and cfg.get("cold") else 0
+        if cfg.get("sched"):
+            H["with_subscribe_time_scheduler"] += 1
+            md = cfg["mode"]
+            key = ("auto_connect(0)" if md == ("auto", 0) else "auto_connect(n>0 or default)" if md[0] == "auto"
+                   else f"mapper {md[1]} via {cfg['via']}" if md[0] == "mapper" else md[0])
+            row = fwd.setdefault(key, {"source_subscribed_with": {}, "subject_factory_called_with": {}})
+            for r in rec:
+                if r["t"] == "ssub":
+                    row["source_subscribed_with"][r["sched"]] = row["source_subscribed_with"].get(r["sched"], 0) + 1
+                elif r["t"] == "meta":
+                    for tag in r["factory_args"]:
+                        row["subject_factory_called_with"][tag] = row["subject_factory_called_with"].get(tag, 0) + 1
         H["falsy_values"] += 1 if any(r["t"] == "got" and r["n"][0] == "N" and r["n"][1] < 6 for r in rec) else 0
         H["reconnect"] += 1 if sum(1 for r in rec if r["t"] == "ssub") >= 2 else 0
         ops_by_id = {r["id"]: r["op"] for r in rec if r["t"] == "call"}
@@ -919,6 +1430,12 @@ def run_check(chk):
         chk.tie_broken("correspondence K1/K2: Subjects/Connectable.v vs ConnectableObservable / ref_count / "
                        "auto_connect / publish / publish_value / replay / multicast", detail)
     chk.cov["distinct_nontrivial"] = len(nt)
+    chk.cov["trace_oracle"] = {k: dict(v) for k, v in TRACE_STATS.items()}
+    chk.cov["scheduler_forwarding"] = dict(
+        fwd, note="MEASURED only: the statement of C24 does not mention the subscribe-time scheduler.  "
+                  "'given' = the scheduler handed to the subscribe() / connect() call of the history; with the "
+                  "code as it is the source always gets it (auto_connect(0) connects at build time: 'none'), "
+                  "auto_connect drops it only towards the SUBJECT (source.subscribe(observer)), which ignores it")
     chk.cov["exhaustive"] = True
     chk.cov["rule"] = (f"exhaustive: all histories of top-level calls of length <= {scope['flat_len']} "
                        "(auto_connect(2)/(3) on publish: +1) over 7-8 operations (2-3 subscribers, connect, dispose of the 1st/2nd "
@@ -928,7 +1445,18 @@ def run_check(chk):
                        "(sub0 sub1 ++ tails, subscriber 0/1 reacting in its first callback); seeded random trees "
                        "over random configurations (all subject kinds, replay buffer 0-3 / window 0-5 ticks with "
                        "clock advances, cold prefixes with/without terminal, manual connect next to ref_count); "
-                       "random histories for the subject_factory + mapper form (identity mapper on synchronous subjects: model tie; otherwise oracle only).  non-trivial = "
+                       "random histories for the subject_factory + mapper form (identity mapper on synchronous subjects: model tie; otherwise oracle only; "
+                       "30% of them re-entrant trees, merge2 also over cold sources: source events by MapperTraceExpect).  "
+                       "Added: every small configuration again with a subscribe-time scheduler given to every "
+                       "subscribe() / connect() (flat, length <= 2; 40% of the random cases too): same log required, "
+                       "which scheduler reaches the source / the subject factory is measured (`scheduler_forwarding`); "
+                       "auto_connect() with its default argument (exhaustive flat + random); targeted re-entrant trees "
+                       "(reaction from the greeting callback inside subscribe() before the connect, or from a cold-prefix "
+                       "callback inside connect(), of the first or second subscriber, plus a reaction from a "
+                       "source-emission callback); on EVERY case, flat or tree, the trace oracle TraceExpect judges each "
+                       "source subscribe / unsubscribe event of the record stream (licensed by a connecting call / a "
+                       "disconnecting edge, obligations met before the call returns; `trace_oracle` counts judged / "
+                       "abstained cases and where the nested calls came from).  non-trivial = "
                        "distinct (configuration, history) with at least one source subscription and two deliveries")
     chk.cov["input_distribution"] = dict(H, **{k: v for k, v in scope.items() if isinstance(v, int)})
     step = max(1, len(cases) // 5)
@@ -941,6 +1469,11 @@ def run_check(chk):
                        "instruction at a time; the AutoDetachObserver wrappers of all layers are collapsed into the "
                        "engine's wrapper, covered by the same correspondence"],
         assumptions=["single thread; subscriber callbacks do not raise",
+                     "re-entrant trees: the exact expectation is for the SOURCE events (TraceExpect, on the "
+                     "implementation's own callback structure); what each subscriber receives on a tree is compared "
+                     "with the model only.  The trace oracle abstains when a handle returned by a connect() nested in "
+                     "a connection set-up is used (the statement does not say what that call returns)",
+                     "the subscribe-time scheduler is outside the statement: its forwarding is measured, not judged",
                      "the source is passive: it emits only when the history says so (plus a cold prefix inside "
                      "subscribe()) and never refuses a subscription",
                      "ref_count / auto_connect edge theorems and the per-subscriber view theorem are for histories of "
@@ -968,4 +1501,6 @@ def replay_check(chk, path):
     print("implementation log", g_xlog(rec))
     for s, dd in bad:
         print("ORACLE FAILS", s, dd)
+    if bad:
+        print(f"VIOLATION property=C24 replay={path}")
     return 1 if bad else 0
